@@ -20,7 +20,7 @@ claims = {
    text="VM side: a case contract for every case of (*VM).exec (the ISA table: operand depth needed, exact stack delta, the only cells written, next instruction) is discharged from the real case bodies, together with the exec loop invariant (caller frames untouched, frame object restored) and the call protocol (call, callReady, mkFunc's activation closure). The compiler-side obligations (compile() emits code meeting the ISA preconditions) appear as preconditions of the case contracts and are not yet proved.",
    technique=TECH),
  'C09': dict(level='proof', design='5.9',
-   text="Callee protocol contracts: callReady (arity and result-count errors, trimming), call (variadic packing: length, declared element type, order), the activation closure built by mkFunc (arguments typed in place and in order, zeroed slots, backtrace push/pop, results spliced, frame restored), newFunc, FUNC/CALL/CALLVARIADIC/FASTCALL/FASTCALLATTR cases, joinParams/splitParams round trip. newMethod and the NewFunc adapters are not yet under contract.",
+   text="Callee protocol contracts: callReady (arity and result-count errors, trimming), call (variadic packing: length, declared element type, order), the activation closure built by mkFunc (arguments typed in place and in order, zeroed slots, backtrace push/pop, results spliced, frame restored), newFunc, FUNC/CALL/CALLVARIADIC/FASTCALL/FASTCALLATTR cases, joinParams/splitParams round trip. newMethod (receiver inserted under the arguments, arity, variadic element type: D12 repaired). The NewFunc adapters are not yet under contract.",
    technique=TECH),
  'C05': dict(level='proof', design='5.5',
    text="Table obligations over the REAL symbol table (getSymbol's composite literal evaluated by the engine for every token): binary operators fall into Go's five levels in Go's order, every level is left-associative (led recursion binds with its own lbp), unary nud binding power exceeds every binary lbp and is below every postfix lbp; contracts on ledInfix / negateNud / complementNud / notNud / doExpression tie the table to the Pratt loop (the loop continues exactly while the next token's lbp exceeds the caller's rbp). Not covered: that evaluation of the resulting tree computes Go's value (C04/C07 slices).",
@@ -37,6 +37,9 @@ claims = {
  'C11': dict(level='proof', design='5.11',
    text="Contracts on sliceT (Len, Get, Set, Slice, Append, Delete, Copy, Range closure) and NewSlice/newSlice over the engine's slice model (array identity, offset, len, cap): sub-slices share the array, append in capacity writes in place and beyond capacity allocates a fresh array leaving the old one untouched, bounds errors exactly when Go panics, element typing via assign. The items-layout clause of Append for multi-append paths was intractable and is not claimed.",
    technique=TECH),
+ 'C12': dict(level='proof', design='5.12',
+   text="The robin-hood table intmap.go is verified against its full invariant (home-slot relation, probe-chain property, unique keys, load bound via a ghost occupancy count): Get and Assign are complete (a live key is always found), insert preserves the invariant and adds exactly the new entry (displacement loop with carried-pair invariants), resize re-inserts every entry (view preserved), Set, Copy (fresh array, same view), init, newIntMap. On top of it the struct layer: newStruct, newStructByIndex/NewStruct (instance = copy of the type's fields in a fresh array, shared Lookup/Order/Methods pointer), SetIndex/SetAttr (only the addressed field changes, value typed by assign), GetIndex/GetAttr (field, else bound method via newMethod), addField, syncFields, addMethod, and the STRUCT/GLOBALSTRUCT/NEWSTRUCT/SETMETHOD cases. Assumed (listed in evidence): intMap.Delete (backward-shift deletion; not called by any production code), the counting facts COUNT about the ghost occupancy count, the power-of-two facts POW2 (checked on 64-bit vectors by lemmas each run), the 3-line dispatchers Value.getIndex/setIndex. Termination of the probe loops is not claimed.",
+   technique=TECH),
  'C13': dict(level='proof', design='5.13',
    text="Contracts on stringT (Len, Get, Slice, Set refusal, Append, Delete) over the uninterpreted string theory with byte-length axioms, token.Char for character literals, and convert[TypeString]. Three genuine defects were repaired (fix: commits for D15, D16, D17). Rune decoding inside range-over-string is outside the engine's string model (trusted: Go's own range over string).",
    technique=TECH),
@@ -50,7 +53,7 @@ claims = {
    text="Table obligations extracted from the REAL priority map literal and sort call of treeSort (stable sort; type > method/function > 0; imports first; init last; every statement kind in the stable default class), plus call-site obligations that every tree handed to loadImports (from loadPackage, loadFile and for every dependency) has been through treeSort (ghost predicate hoisted), and symAtPos's contract. The sort.SliceStable library call itself and joinFiles are trusted (listed as assumptions); the behavioural consequence (all permutations run identically) rests on them and on C07/C08.",
    technique=TECH + "; table obligations over the source literal"),
  'C17': dict(level='proof', design='5.17',
-   text="Heap contracts for GLOBALFUNC (in-place copy into the existing funcT, every other function object untouched), GLOBALZERO (writes only when the variable is nil), GLOBALSET, lookup.Write/Assign. addMethod/newMethod (bound methods) not yet under contract.",
+   text="Heap contracts for GLOBALFUNC (in-place copy into the existing funcT, every other function object untouched), GLOBALZERO (writes only when the variable is nil), GLOBALSET, lookup.Write/Assign. addMethod (an existing method object is overwritten in place and the method table left alone, so bound methods captured earlier run the new body), addField/syncFields (GLOBALSTRUCT merges into the existing type object).",
    technique=TECH),
  'C19': dict(level='proof', design='5.19',
    text="Round-trip contracts on every numeric/bool/object Value constructor/accessor pair, discharged for all argument values; newFunc. NewFunc adapters, VM.Func/Call not yet under contract.",
